@@ -3,6 +3,7 @@ import RvModel.Hand.Kernel
 import RvModel.Lemmas.C16
 import Mathlib.Analysis.SpecialFunctions.Pow.Real
 import Mathlib.Analysis.SpecialFunctions.Trigonometric.Basic
+import Mathlib.Analysis.Complex.Exponential
 /-!
   C16 (part A) — covariance kernels: structure.  Model: `Hand/Kernel.lean` (hand transcription of
   `/repo/src/process/gaussian/kernel/*.rs`, tied to the code by the correspondence run of `kernel.*` ops).
@@ -283,6 +284,59 @@ theorem matern_covGrad_cov_lower (nu l : R) (x y : List R) :
       rw [R.lt_iff, R.sqrt_val, e2norm_self, Real.sqrt_zero]; exact eps_pos
     simp only [covGradEntry, maternAutocov, cov, maternCov, h, if_true]
 
+/-! ### the textbook Matérn closed forms (Spec `maternClosed`, the oracle of the Matérn leaf for ν = 1/2, 3/2, 5/2)
+
+  That the transcribed Bessel algorithm (`besselIkvTemme`: truncated series / continued fractions) evaluates to these
+  closed forms is NOT provable (it is an approximation scheme); the correspondence run compares the implementation with
+  them to `1e-8`.  What is proved: the closed forms themselves are a sane covariance (symmetric, unit diagonal, values
+  in `(0, 1]`). -/
+
+-- @site MaternKernel::covariance
+theorem maternClosed_comm (sel : Nat) (l : R) (x y : List R) : maternClosed sel l x y = maternClosed sel l y x := by
+  simp only [maternClosed, sqDist_comm x y]
+
+-- @site MaternKernel::covariance
+theorem maternClosed_self (sel : Nat) (l : R) (x : List R) : (maternClosed sel l x x).val = 1 := by
+  rcases sel with _ | _ | n <;>
+    simp only [maternClosed, sqDist_self, R.sqrt_val, R.div_val, R.exp_val, R.neg_val, R.mul_val, R.add_val, lit1,
+      lit3, lit5, Real.sqrt_zero, zero_div, mul_zero, neg_zero, Real.exp_zero, add_zero, mul_one]
+
+-- @site MaternKernel::covariance
+/-- `0 < k(x, x') ≤ 1 = k(x, x)` (necessary for positive semidefiniteness): `(1 + t + t²/3) e^{-t} ≤ 1` because
+    `e^t ≥ 1 + t + t²/2` -/
+theorem maternClosed_range (sel : Nat) (l : R) (hl : 0 < l.val) (x y : List R) :
+    0 < (maternClosed sel l x y).val ∧ (maternClosed sel l x y).val ≤ 1 := by
+  have hr : 0 ≤ Real.sqrt (sqSum x y) / l.val := div_nonneg (Real.sqrt_nonneg _) hl.le
+  have key : ∀ t : ℝ, 0 ≤ t → 0 < (1 + t + t * t / 3) * Real.exp (-t) ∧ (1 + t + t * t / 3) * Real.exp (-t) ≤ 1 ∧
+      (1 + t) * Real.exp (-t) ≤ 1 ∧ 0 < (1 + t) * Real.exp (-t) := by
+    intro t ht
+    have he := Real.quadratic_le_exp_of_nonneg ht
+    have hpos := Real.exp_pos (-t)
+    have hinv : Real.exp (-t) * Real.exp t = 1 := by rw [← Real.exp_add]; simp
+    have h1 : (1 + t + t * t / 3) ≤ Real.exp t := by nlinarith [mul_nonneg ht ht]
+    have h2 : (1 + t) ≤ Real.exp t := by nlinarith [mul_nonneg ht ht]
+    refine ⟨by positivity, ?_, ?_, by positivity⟩
+    · calc (1 + t + t * t / 3) * Real.exp (-t) ≤ Real.exp t * Real.exp (-t) := by
+            exact mul_le_mul_of_nonneg_right h1 hpos.le
+        _ = 1 := by rw [mul_comm]; exact hinv
+    · calc (1 + t) * Real.exp (-t) ≤ Real.exp t * Real.exp (-t) := mul_le_mul_of_nonneg_right h2 hpos.le
+        _ = 1 := by rw [mul_comm]; exact hinv
+  rcases sel with _ | _ | n
+  · simp only [maternClosed, R.exp_val, R.neg_val, R.div_val, R.sqrt_val, sqDist_val]
+    exact ⟨Real.exp_pos _, Real.exp_le_one_iff.mpr (by linarith)⟩
+  · simp only [maternClosed, R.exp_val, R.neg_val, R.div_val, R.sqrt_val, R.mul_val, R.add_val, sqDist_val, lit1,
+      lit3]
+    have ht : 0 ≤ Real.sqrt (3 : ℝ) * (Real.sqrt (sqSum x y) / l.val) := mul_nonneg (Real.sqrt_nonneg _) hr
+    obtain ⟨_, _, h3, h4⟩ := key _ ht
+    exact ⟨h4, h3⟩
+  · simp only [maternClosed, R.exp_val, R.neg_val, R.div_val, R.sqrt_val, R.mul_val, R.add_val, sqDist_val, lit1,
+      lit3, lit5]
+    have ht : 0 ≤ Real.sqrt (5 : ℝ) * (Real.sqrt (sqSum x y) / l.val) := mul_nonneg (Real.sqrt_nonneg _) hr
+    obtain ⟨h1, h2, _, _⟩ := key _ ht
+    exact ⟨h1, h2⟩
+
+example : (maternClosed 2 (r 2) [r 0, r 1] [r 3, r 1]).val ≤ 1 := (maternClosed_range 2 (r 2) (by norm_num) _ _).2
+
 /-! ### shapes -/
 
 -- @site Kernel::n_parameters
@@ -479,6 +533,28 @@ example : reparameterize (.add (.rbf (r 2)) (.mul (.const (r 3)) (.seard [r 1, r
       (parameters (.add (.rbf (r 2)) (.mul (.const (r 3)) (.seard [r 1, r 4]))))
     = .ok (.add (.rbf (r 2)) (.mul (.const (r 3)) (.seard [r 1, r 4]))) :=
   reparameterize_parameters _ (by simp [Valid, r])
+
+-- @site Kernel::reparameterize
+/-- the round trip as the harness runs it (op `kernel.roundtrip`): rebuilding a kernel from its own `parameters()` gives
+    back the same parameters and the same covariance matrix — every tree with positive parameters, in particular
+    products and sums whose operands have DIFFERENT numbers of parameters (the split index is `a.n_parameters()`) -/
+theorem roundTrip_eq (k : K R) (hv : Valid k) (X : List (List R)) :
+    roundTrip k X = (covMatrix k X X).map (fun m => (parameters k, m)) := by
+  simp only [roundTrip, reparameterize_parameters k hv, bind, Except.bind]
+  cases covMatrix k X X <;> rfl
+
+example : roundTrip (.mul (.rq (r 1) (r 3)) (.rbf (r 2))) [[r 0], [r 1]]
+    = (covMatrix (.mul (.rq (r 1) (r 3)) (.rbf (r 2))) [[r 0], [r 1]] [[r 0], [r 1]]).map
+        (fun m => (parameters (.mul (.rq (r 1) (r 3)) (.rbf (r 2))), m)) :=
+  roundTrip_eq _ (by simp [Valid]) _
+
+-- @site ProductKernel::reparameterize
+/-- the split index matters: a product of a two-parameter and a one-parameter kernel hands the first TWO values to the
+    left factor — `[θ₀, θ₁ | θ₂]`, not `[θ₀ | θ₁, θ₂]` -/
+theorem reparameterize_mul_split (s a l : R) (t0 t1 t2 : R) :
+    reparameterize (.mul (.rq s a) (.rbf l)) [t0, t1, t2]
+      = (do let x ← reparameterize (.rq s a) [t0, t1]; let y ← reparameterize (.rbf l) [t2]; pure (.mul x y)) := by
+  rfl
 
 -- @site Kernel::parameters
 /-- and the other way round: the parameters of the kernel rebuilt from `θ` are `θ`, for every tree and every `θ` of the
@@ -687,6 +763,9 @@ end C16
 #print axioms C16.white_covGrad_cov_counterexample
 #print axioms C16.matern_covGrad_cov_counterexample
 #print axioms C16.matern_covGrad_cov_lower
+#print axioms C16.maternClosed_comm
+#print axioms C16.maternClosed_self
+#print axioms C16.maternClosed_range
 #print axioms C16.nParameters_add
 #print axioms C16.nParameters_mul
 #print axioms C16.parameters_add
@@ -698,6 +777,8 @@ end C16
 #print axioms C16.covWithGrad_cov_eq
 #print axioms C16.covWithGrad_entry
 #print axioms C16.reparameterize_parameters
+#print axioms C16.roundTrip_eq
+#print axioms C16.reparameterize_mul_split
 #print axioms C16.parameters_reparameterize
 #print axioms C16.reparameterize_extraneous
 #print axioms C16.ess_rq_extraneous_counterexample
